@@ -194,7 +194,7 @@ class Minimiser:
         if used_cols:
             c = copy.deepcopy(sc)
             for fid, spec in c["frames"].items():
-                kept = [col for col in spec["cols"] if col[0] in used_cols or col[0] in ("k", "f")]
+                kept = [col for col in spec["cols"] if col[0] in used_cols or col[0] in ("k", "f", "x", "z", "w")]
                 if kept:
                     spec["cols"] = kept
             i, r = self.test_many([c])
